@@ -37,6 +37,9 @@ pub enum ROp {
     RegisterHeld,
     /// build a fresh instance and register it through the builder's `register()` terminal
     BuildRegisterNew,
+    /// spawn a fresh instance, stop it, wait for its end, and `register()` it all the same:
+    /// whether register succeeds depends on what is registered, not on what is being registered
+    RegisterNewStopped,
 }
 
 pub const ALPHABET: [ROp; 10] = [
@@ -70,6 +73,20 @@ pub async fn reg_op<const K: u8>(held: &mut Option<Addr<Probe<K>>>, op: ROp) -> 
             Ok(()) => Res::Ok,
             Err(_) => Res::Err(ErrKind::NotFound),
         },
+        ROp::RegisterNewStopped => {
+            let fresh = Probe::<K>::new(role);
+            let inst = fresh.inst;
+            let mut addr = fresh.spawn();
+            let _ = addr.stop();
+            let _ = addr.clone().await;
+            match addr.register().await {
+                Ok((me, replaced)) => {
+                    *held = Some(me);
+                    Res::Registered { new: inst, replaced: replaced.is_some() }
+                }
+                Err(e) => Res::Err(errkind(&e)),
+            }
+        }
         ROp::RegisterNew => {
             let fresh = Probe::<K>::new(role);
             let inst = fresh.inst;
@@ -404,7 +421,7 @@ fn apply(m: &Model, e: &HEvent, hold_probe: &dyn Fn(u16, usize) -> bool) -> Opti
                         _ => None,
                     }
                 }
-                ROp::RegisterNew | ROp::BuildRegisterNew => {
+                ROp::RegisterNew | ROp::BuildRegisterNew | ROp::RegisterNewStopped => {
                     // (the builder's terminal may refuse before it spawns anything: then there is
                     // no new instance to account for)
                     let Some(s) = *spawned else {
@@ -642,7 +659,7 @@ pub fn check_history(t: &Trace, programs: &[Vec<(u8, ROp)>], pid: &str) -> Vec<V
 // ------------------------------------------------------------------ cases
 
 fn spawns(op: ROp) -> bool {
-    matches!(op, ROp::RegisterNew | ROp::ReplaceNew)
+    matches!(op, ROp::RegisterNew | ROp::ReplaceNew | ROp::RegisterNewStopped)
 }
 
 fn push_case(v: &mut Vec<Case>, programs: Vec<Vec<(u8, ROp)>>, preregistered: bool, bound: Option<u32>) {
@@ -779,6 +796,19 @@ fn cases(tier: Tier) -> Vec<Case> {
             vec![vec![(1, ROp::RegisterNew), (1, ROp::ReplaceHeld)], vec![f]],
             vec![vec![f, (1, ROp::ReplaceHeld)], vec![(1, ROp::ReplaceNew)]],
             vec![vec![f, (1, ROp::ReplaceHeld)], vec![f, (1, ROp::ReplaceHeld)]],
+        ];
+        for p in progs {
+            push_case(&mut v, p, false, None);
+        }
+    }
+    // registering an instance that has already ended: what counts is what the registry holds
+    {
+        let f = (1u8, ROp::FromRegistry);
+        let progs: Vec<Vec<Vec<(u8, ROp)>>> = vec![
+            vec![vec![(1, ROp::RegisterNewStopped), (1, ROp::AlreadyRunning), (1, ROp::TryFromRegistry), f]],
+            vec![vec![f, (1, ROp::StopHeld), (1, ROp::RegisterNewStopped), (1, ROp::AlreadyRunning)]],
+            vec![vec![f, (1, ROp::RegisterNewStopped), (1, ROp::AlreadyRunning)]],
+            vec![vec![(1, ROp::RegisterNewStopped)], vec![(1, ROp::AlreadyRunning), f]],
         ];
         for p in progs {
             push_case(&mut v, p, false, None);
